@@ -3,7 +3,7 @@ import errno
 
 import z3
 
-from pyvc.core import RaiseSignal, SBool, Sym, Unsupported
+from pyvc.core import NativeStub, RaiseSignal, SBool, Sym, Unsupported
 from pyvc.interp import Obj
 from pyvc.theory_fs import CALC, EMPTY, FS, JD, NONEV, Data, LIn, LJob, LWs, Name, Node, SPv, SymOSError, canon, jsonok, parsed
 from pyvc.theory_j import Id, SId
@@ -569,3 +569,305 @@ def inv_job_follow(ctx, job, new):
 
 
 CONTRACTS.append(SPRekey())
+
+
+# ============================================================================= Project.open_job(statepoint) / Job.__init__
+
+
+def new_handle(interp, proj, i, sp, directory_known=False):
+    """the handle Job(project, statepoint=sp) constructs (clauses of JobNew.post)"""
+    rp = interp.repo
+    rp.load(JOB)
+    o = Obj(rp.classes[f"{JOB}.Job"])
+    o.tag = "h" + interp.ex.fresh_name("")
+    o.fields.update(_project=proj, _lock=None, _id=SId(i), _path=None, _document=None, _stores=None, _cwd=[],
+                    _cached_statepoint=(SSP(sp) if sp is not None else None), _statepoint_requires_init=True, _directory_known=directory_known)
+    return o
+
+
+def stub_open_job_by_sp(interp, b):
+    ex = interp.ex
+    proj, sp, id_ = b["self"], b["statepoint"], b["id"]
+    if id_ is not None or sp is None:
+        raise Unsupported("open_job by id in this context")
+    v = spv_of(sp)
+    ex.assumptions_used.add("open_job(statepoint): Job handle for id CALC(statepoint) holding an unaliased copy (contract OpenJobBySP)")
+    return new_handle(interp, proj, CALC(v), v)
+
+
+class RLockStub:
+    pass
+
+
+class JobNew(FSContract):
+    """Job.__init__: id derived from the state point, nothing touched on disk, lazy fields reset."""
+    target = f"{JOB}.Job.__init__"
+    properties = ("C01", "C02", "C03")
+    inline = GETTERS + (f"{JOB}.Job._initialize_lazy_properties",)
+    faults = False
+
+    def cases(self):
+        return [{"by": "statepoint"}, {"by": "id"}, {"by": "both"}, {"by": "none"}]
+
+    def setup(self, interp, case):
+        ex, ctx = interp.ex, interp.ctx
+        ctx.fs_init(ex)
+        proj = mk_project(ex)
+        rp = interp.repo
+        rp.load(JOB)
+        o = Obj(rp.classes[f"{JOB}.Job"])
+        sp, i = z3.Const("sp_arg", SPv), z3.Const("id_arg", Id)
+        ex.assume(sp != NONEV)
+        kw = {"project": proj}
+        if case["by"] in ("statepoint", "both"):
+            kw["statepoint"] = SSP(sp)
+        if case["by"] in ("id", "both"):
+            kw["id_"] = SId(i)
+        ctx.overrides[(JOB, "RLock")] = NativeStub(lambda: None, "RLock")
+        return [o], kw, {"o": o, "sp": sp, "i": i, "proj": proj}
+
+    def post(self, interp, case, pre, outcome):
+        ex, ctx = interp.ex, interp.ctx
+        o, sp, i, proj = pre["o"], pre["sp"], pre["i"], pre["proj"]
+        ex.oblige(self.oname("frame:constructing_a_handle_touches_nothing_on_disk"), ctx.fs.eq(ctx.fs0))
+        if case["by"] == "none":
+            ex.oblige(self.oname("raises:ValueError_without_statepoint_and_id"), z3.BoolVal(outcome[0] == "raise" and isinstance(outcome[1], ValueError)))
+            return
+        if outcome[0] == "raise":
+            ex.oblige(self.oname("raises:nothing_for_valid_arguments"), False, note=repr(outcome[1]))
+            return
+        f = o.fields
+        want = CALC(sp) if case["by"] == "statepoint" else i
+        ex.oblige(self.oname("ensures:id_is_the_hash_of_the_state_point_or_the_given_id"), f["_id"].e == want if isinstance(f.get("_id"), SId) else z3.BoolVal(False))
+        ex.oblige(self.oname("ensures:lazy_fields_reset"), z3.BoolVal(f.get("_path") is None and f.get("_document") is None and f.get("_stores") is None
+                                                                      and f.get("_statepoint_requires_init") is True and f.get("_project") is proj))
+        cs = f.get("_cached_statepoint")
+        if case["by"] in ("statepoint", "both"):
+            ex.oblige(self.oname("ensures:cached_state_point_is_the_given_value"), cs.e == sp if isinstance(cs, SSP) else z3.BoolVal(False))
+        else:
+            cache = proj.fields["_sp_cache"]
+            ex.oblige(self.oname("ensures:cached_state_point_only_from_a_cache_hit"),
+                      z3.And(cache.dom[i], cs.e == cache.val[i]) if isinstance(cs, SSP) else (z3.Not(cache.dom[i]) if cs is None else z3.BoolVal(False)))
+
+
+class OpenJobBySP(FSContract):
+    target = f"{PRJ}.Project.open_job"
+    properties = ("C01", "C02", "C03")
+    inline = GETTERS + (f"{JOB}.Job.__init__", f"{JOB}.Job._initialize_lazy_properties")
+    faults = False
+
+    def cases(self):
+        return [{"by": "statepoint"}, {"by": "none"}, {"by": "both"}, {"by": "id-cached"}]
+
+    def setup(self, interp, case):
+        ex, ctx = interp.ex, interp.ctx
+        ctx.fs_init(ex)
+        proj = mk_project(ex)
+        sp, i = z3.Const("sp_arg", SPv), z3.Const("id_arg", Id)
+        ex.assume(sp != NONEV)
+        ctx.overrides[(JOB, "RLock")] = NativeStub(lambda: None, "RLock")
+        kw = {}
+        if case["by"] in ("statepoint", "both"):
+            kw["statepoint"] = SSP(sp)
+        if case["by"] in ("both", "id-cached"):
+            kw["id"] = SId(i)
+        if case["by"] == "id-cached":
+            ex.assume(proj.fields["_sp_cache"].dom[i])
+            ex.assume(proj.fields["_sp_cache"].valid())
+        return [proj], kw, {"sp": sp, "i": i, "proj": proj, "arg": kw.get("statepoint")}
+
+    def post(self, interp, case, pre, outcome):
+        ex, ctx = interp.ex, interp.ctx
+        sp, i, proj = pre["sp"], pre["i"], pre["proj"]
+        ex.oblige(self.oname("frame:open_job_writes_nothing_to_disk"), ctx.fs.eq(ctx.fs0))
+        if case["by"] in ("none", "both"):
+            ex.oblige(self.oname("raises:ValueError_for_none_or_both"), z3.BoolVal(outcome[0] == "raise" and isinstance(outcome[1], ValueError)))
+            return
+        if outcome[0] == "raise":
+            ex.oblige(self.oname("raises:nothing_for_valid_arguments"), False, note=repr(outcome[1]))
+            return
+        j = outcome[1]
+        ok = isinstance(j, Obj) and j.cls.name == "Job" and isinstance(j.fields.get("_id"), SId) and j.fields.get("_project") is proj
+        ex.oblige(self.oname("ensures:returns_a_job_handle_of_this_project"), z3.BoolVal(ok))
+        if not ok:
+            return
+        cs = j.fields.get("_cached_statepoint")
+        if case["by"] == "statepoint":
+            ex.oblige(self.oname("ensures:id_is_hash_of_state_point"), j.fields["_id"].e == CALC(sp))
+            ex.oblige(self.oname("ensures:handle_holds_an_unaliased_equal_copy"), z3.And(z3.BoolVal(isinstance(cs, SSP) and cs is not pre["arg"]), cs.e == sp) if isinstance(cs, SSP) else z3.BoolVal(False))
+        else:
+            ex.oblige(self.oname("ensures:cached_job_opened_with_its_cached_state_point"),
+                      z3.And(j.fields["_id"].e == i, cs.e == proj.fields["_sp_cache"].val[i]) if isinstance(cs, SSP) else z3.BoolVal(False))
+
+
+# ============================================================================= Job.remove
+
+
+class JobRemove(FSContract):
+    target = f"{JOB}.Job.remove"
+    properties = ("C03", "C11")
+
+    def setup(self, interp, case):
+        ex, ctx = interp.ex, interp.ctx
+        ctx.fs_init(ex)
+        proj = mk_project(ex)
+        job = mk_job(interp, proj, "me")
+        if ex.decide(None, "pre:document handle open"):
+            from .jobfs import SDoc
+            job.fields["_document"] = SDoc(LIn(proj.p, job.me, Name.DOC), True)
+            job.fields["_stores"] = "h5-store-manager"
+        return [job], {}, {"job": job, "p": proj.p, "me": job.me}
+
+    def crash_invariant(self, interp, ctx, label, fs):
+        pre = ctx.ghost.get("pre")
+        if pre:
+            interp.ex.oblige(self.oname("crash:every_other_job_untouched"), jd_frame(ctx.fs0, fs, pre["p"], pre["me"]))
+
+    def post(self, interp, case, pre, outcome):
+        ex, ctx = interp.ex, interp.ctx
+        fs0, fs, p, me, job = ctx.fs0, ctx.fs, pre["p"], pre["me"], pre["job"]
+        k = JD.mk(p, me)
+        ex.oblige(self.oname("frame:every_other_job_untouched"), z3.And(jd_frame(fs0, fs, p, me), fs.ws == fs0.ws))
+        if outcome[0] == "return":
+            ex.oblige(self.oname("ensures:job_directory_gone"), z3.And(z3.Not(fs.dirs[k]), fs.ent[k] == EMPTY))
+            ex.oblige(self.oname("ensures:document_and_store_handles_dropped_when_a_directory_was_removed"),
+                      z3.Implies(fs0.dirs[k], z3.BoolVal(job.fields["_document"] is None and job.fields["_stores"] is None)))
+            dk = job.fields["_directory_known"]
+            ex.oblige(self.oname("ensures:directory_no_longer_assumed_to_exist"), z3.BoolVal(dk is False))
+        else:
+            ex.oblige(self.oname("raises:only_an_injected_OSError"), z3.BoolVal(isinstance(outcome[1], SymOSError)))
+
+
+# ============================================================================= Job.move / Project.clone
+
+
+def setup_two_projects(interp, same=None):
+    ex, ctx = interp.ex, interp.ctx
+    ctx.fs_init(ex)
+    src = mk_project(ex, "p")
+    if same is None:
+        same = ex.decide(None, "pre:destination is the same project")
+    dst = src if same else mk_project(ex, "q")
+    if not same:
+        ex.assume(src.p != dst.p)
+    return src, dst
+
+
+class JobMove(FSContract):
+    target = f"{JOB}.Job.move"
+    properties = ("C03", "C04", "C11")
+    shard_bits = 3
+    inline = GETTERS + (f"{JOB}.Job.statepoint", f"{JOB}._StatePointDict.__init__", f"{PRJ}.Project._register", f"{JOB}.Job.__str__")
+    callees = {f"{PRJ}.Project.open_job": stub_open_job_by_sp, "signac._utility._mkdir_p": stub_mkdir_p, f"{JOB}._StatePointDict.load": stub_sp_load}
+
+    def setup(self, interp, case):
+        ex, ctx = interp.ex, interp.ctx
+        src, dst = setup_two_projects(interp)
+        job = mk_job(interp, src, "me")
+        ex.assume(z3.And(src.fields["_sp_cache"].valid(), dst.fields["_sp_cache"].valid()))
+        pre = {"job": job, "p": src.p, "q": dst.p, "me": job.me, "src": src, "dst": dst}
+        ctx.ghost["pre"] = pre
+        return [job, dst], {}, pre
+
+    def crash_invariant(self, interp, ctx, label, fs):
+        pre = ctx.ghost.get("pre")
+        if not pre:
+            return
+        p, q, me, fs0 = pre["p"], pre["q"], pre["me"], ctx.fs0
+        j = z3.Const("ci_j", JD)
+        ks, kd = JD.mk(p, me), JD.mk(q, me)
+        interp.ex.oblige(self.oname("crash:every_other_job_untouched"),
+                         z3.ForAll([j], z3.Implies(z3.And(j != ks, j != kd), z3.And(fs.dirs[j] == fs0.dirs[j], fs.ent[j] == fs0.ent[j]))))
+        interp.ex.oblige(self.oname("crash:job_data_complete_under_exactly_one_project"),
+                         z3.Implies(z3.And(fs0.dirs[ks], ks != kd),
+                                    z3.Or(z3.And(fs.dirs[ks], fs.ent[ks] == fs0.ent[ks], fs.dirs[kd] == fs0.dirs[kd], fs.ent[kd] == fs0.ent[kd]),
+                                          z3.And(z3.Not(fs.dirs[ks]), fs.dirs[kd], fs.ent[kd] == fs0.ent[ks]))))
+
+    def post(self, interp, case, pre, outcome):
+        from signac.errors import DestinationExistsError, JobsCorruptedError
+        ex, ctx = interp.ex, interp.ctx
+        fs0, fs, p, q, me, job, dst = ctx.fs0, ctx.fs, pre["p"], pre["q"], pre["me"], pre["job"], pre["dst"]
+        ks, kd = JD.mk(p, me), JD.mk(q, me)
+        j = z3.Const("po_j", JD)
+        ex.oblige(self.oname("frame:every_other_job_untouched"),
+                  z3.And(z3.ForAll([j], z3.Implies(z3.And(j != ks, j != kd), z3.And(fs.dirs[j] == fs0.dirs[j], fs.ent[j] == fs0.ent[j]))), fs.pf == fs0.pf))
+        ex.oblige(self.oname("inv:cache_entries_hash_to_their_key"), z3.And(pre["src"].fields["_sp_cache"].valid(), dst.fields["_sp_cache"].valid()))
+        if outcome[0] == "return":
+            ex.oblige(self.oname("ensures:directory_moved_with_identical_entries"),
+                      z3.Implies(ks != kd, z3.And(fs.dirs[kd], fs.ent[kd] == fs0.ent[ks], z3.Not(fs.dirs[ks]), fs.ent[ks] == EMPTY)))
+            ex.oblige(self.oname("ensures:source_was_initialised_and_destination_was_free"),
+                      z3.Implies(ks != kd, z3.And(fs0.dirs[ks], z3.Or(z3.Not(fs0.dirs[kd]), fs0.ent[kd] == EMPTY))))
+            f = job.fields
+            ex.oblige(self.oname("ensures:handle_adopts_the_destination_project_and_keeps_the_id"),
+                      z3.And(z3.BoolVal(f["_project"] is dst), f["_id"].e == me) if isinstance(f["_id"], SId) else z3.BoolVal(False))
+            ex.oblige(self.oname("ensures:handle_state_point_object_not_bound_to_the_old_location"),
+                      z3.BoolVal(f["_statepoint_requires_init"] is True or (isinstance(f.get("_statepoint"), Obj) and False)))
+            for lab, c in inv_job(ctx, job):
+                ex.oblige(self.oname("inv:" + lab), c)
+        else:
+            exc = outcome[1]
+            if isinstance(exc, (DestinationExistsError, RuntimeError)):
+                ex.oblige(self.oname("raises:DestinationExists_or_uninitialised_leaves_all_job_directories_untouched"),
+                          z3.And(fs.dirs == fs0.dirs, fs.ent == fs0.ent))
+            elif isinstance(exc, (SymOSError, JobsCorruptedError)):
+                pass   # frame + crash invariants
+            else:
+                ex.oblige(self.oname("raises:no_other_exception"), False, note=repr(exc))
+        ex.oblige(self.oname("ensures:occupied_destination_never_clobbered"),
+                  z3.Implies(z3.And(ks != kd, fs0.dirs[kd], fs0.ent[kd] != EMPTY), z3.And(fs.dirs[kd], fs.ent[kd] == fs0.ent[kd], fs.ent[ks] == fs0.ent[ks], fs.dirs[ks] == fs0.dirs[ks])))
+
+
+class ProjectClone(FSContract):
+    target = f"{PRJ}.Project.clone"
+    properties = ("C03", "C04", "C11", "C13")
+    shard_bits = 2
+    inline = GETTERS + (f"{JOB}.Job.statepoint", f"{JOB}._StatePointDict.__init__", f"{PRJ}.Project._register")
+    callees = {f"{PRJ}.Project.open_job": stub_open_job_by_sp, f"{JOB}._StatePointDict.load": stub_sp_load}
+
+    def setup(self, interp, case):
+        ex, ctx = interp.ex, interp.ctx
+        src, dst = setup_two_projects(interp)
+        job = mk_job(interp, src, "me")
+        ex.assume(z3.And(src.fields["_sp_cache"].valid(), dst.fields["_sp_cache"].valid()))
+        pre = {"job": job, "p": src.p, "q": dst.p, "me": job.me, "src": src, "dst": dst}
+        ctx.ghost["pre"] = pre
+        return [dst, job], {}, pre
+
+    def crash_invariant(self, interp, ctx, label, fs):
+        pre = ctx.ghost.get("pre")
+        if not pre:
+            return
+        p, q, me, fs0 = pre["p"], pre["q"], pre["me"], ctx.fs0
+        j = z3.Const("ci_j", JD)
+        kd = JD.mk(q, me)
+        interp.ex.oblige(self.oname("crash:source_and_every_other_job_untouched"),
+                         z3.ForAll([j], z3.Implies(j != kd, z3.And(fs.dirs[j] == fs0.dirs[j], fs.ent[j] == fs0.ent[j]))))
+
+    def post(self, interp, case, pre, outcome):
+        from signac.errors import DestinationExistsError, JobsCorruptedError
+        ex, ctx = interp.ex, interp.ctx
+        fs0, fs, p, q, me, dst = ctx.fs0, ctx.fs, pre["p"], pre["q"], pre["me"], pre["dst"]
+        ks, kd = JD.mk(p, me), JD.mk(q, me)
+        j = z3.Const("po_j", JD)
+        ex.oblige(self.oname("frame:source_and_every_other_job_untouched"),
+                  z3.And(z3.ForAll([j], z3.Implies(j != kd, z3.And(fs.dirs[j] == fs0.dirs[j], fs.ent[j] == fs0.ent[j]))), fs.pf == fs0.pf))
+        if outcome[0] == "return":
+            h = outcome[1]
+            ok = isinstance(h, Obj) and h.cls.name == "Job" and h.fields.get("_project") is dst and isinstance(h.fields.get("_id"), SId)
+            ex.oblige(self.oname("ensures:returns_the_destination_handle"), z3.And(z3.BoolVal(ok), h.fields["_id"].e == me) if ok else z3.BoolVal(False))
+            ex.oblige(self.oname("ensures:destination_is_an_identical_copy"), z3.And(fs.dirs[kd], fs.ent[kd] == fs0.ent[ks], fs0.dirs[ks]))
+            ex.oblige(self.oname("ensures:destination_did_not_exist_before"), z3.Not(fs0.dirs[kd]))
+        else:
+            exc = outcome[1]
+            if isinstance(exc, DestinationExistsError):
+                ex.oblige(self.oname("raises:DestinationExistsError_leaves_everything_untouched"), z3.And(fs.dirs == fs0.dirs, fs.ent == fs0.ent))
+            elif isinstance(exc, ValueError):
+                ex.oblige(self.oname("raises:ValueError_only_for_an_uninitialised_source"), z3.And(z3.Not(fs0.dirs[ks]), fs.dirs == fs0.dirs, fs.ent == fs0.ent))
+            elif isinstance(exc, (SymOSError, JobsCorruptedError)):
+                pass
+            else:
+                ex.oblige(self.oname("raises:no_other_exception"), False, note=repr(exc))
+        ex.oblige(self.oname("ensures:existing_destination_never_clobbered"), z3.Implies(fs0.dirs[kd], z3.And(fs.dirs[kd], fs.ent[kd] == fs0.ent[kd])))
+
+
+CONTRACTS += [JobNew(), OpenJobBySP(), JobRemove(), JobMove(), ProjectClone()]
